@@ -87,6 +87,16 @@ def dims_for(cmd):
 
 
 def build_argv(cmd, vec):
+    place = vec.get("placement")
+    if place == "password-first" and cmd is not None and vec.get("password") is not None:
+        # the sub-command's own option written among the global options (before the sub-command)
+        rest = build_argv(cmd, dict(vec, placement=None, password=None))
+        return ["--password", vec["password"]] + rest
+    if place == "globals-last" and cmd is not None:
+        # the global options written after the sub-command and its arguments
+        plain = build_argv(cmd, dict(vec, placement=None))
+        cut = plain.index(cmd)
+        return plain[cut:] + plain[:cut]
     a = []
     if vec["file"] is not None:
         a += ["-f", vec["file"]]
@@ -424,6 +434,27 @@ def run(ctx):
                 if key not in seen0:
                     seen0.add(key)
                     cases.append({"cmd": cmd, "vec": vec, "labels": labels, "dev": r_})
+    # options written on the WRONG SIDE of the sub-command (argparse may refuse them - or accept them, but then with their value)
+    for cmd in ("from-mnemonic", "from-entropy-hex", "from-master-xprv"):
+        dims = dims_for(cmd)
+        names = list(dims)
+        for place in ("password-first", "globals-last"):
+            for extra_ in ({}, {"testnet": True}, {"paranoia": True}, {"account": "5"}):
+                if place == "password-first" and "password" not in dims:
+                    continue
+                vec = {m: dims[m][0][0] for m in names}
+                labels = {m: dims[m][0][1] for m in names}
+                vec.update(extra_)
+                if "password" in dims:
+                    vec["password"] = dims["password"][1][0]
+                if place == "globals-last" and not extra_:
+                    vec["file"] = "out.json"
+                vec["placement"], labels["placement"] = place, E
+                vec = {k: (list(v) if isinstance(v, tuple) else v) for k, v in vec.items()}
+                key = json.dumps([cmd, vec], sort_keys=True)
+                if key not in seen0:
+                    seen0.add(key)
+                    cases.append({"cmd": cmd, "vec": vec, "labels": labels, "dev": 2})
     # computed-intermediate corner (vf/corners.py): accounts whose extended PRIVATE key text contains a field name of the schema
     from .. import corners
     kept, st = corners.cover(((a, _acct_text_feats(a)) for a in range((ctx.seed * 5000) % (2**31 - 10**7), 2**31 - 1)), {}, 200000, positions=False, firstlast=False, pairs=False,
